@@ -135,6 +135,8 @@ pub enum Scripted {
     Ok200,
     Err,
     Panic,
+    /// unwinds with a payload that is neither &str nor String (std::panic::panic_any)
+    PanicAny,
     Unregistered,
 }
 impl Application for Scripted {
@@ -148,6 +150,7 @@ impl Application for Scripted {
             }
             Scripted::Err => Err("scripted application error".to_string()),
             Scripted::Panic => panic!("scripted application panic"),
+            Scripted::PanicAny => std::panic::panic_any(7u32),
             Scripted::Unregistered => {
                 let hl = crate::header::Header::get_header_list(request);
                 let mut r = Response::get_response(STATUS_CODE_REASON_PHRASE.n200_ok, Some(hl), None);
